@@ -32,7 +32,8 @@ def executed_lines():
 
 @st.composite
 def program(draw, nmax=8, kinds=('call', 'await', 'map', 'amap', 'wait'), immediate_only=False,
-            forced_flush=True, fail_p=4, with_foreign=0, shutdown=False):
+            forced_flush=True, fail_p=4, with_foreign=0, shutdown=False,
+            foreign_ops=('call', 'call', 'map', 'await'), foreign_waits=True):
     T = draw(st.sampled_from([0.25, 1.0]))
     fdur = draw(st.sampled_from([0, 0, T / 2, 2 * T]))
     fails = [i for i in range(1, 7) if draw(st.integers(0, 15)) < fail_p]
@@ -69,8 +70,13 @@ def program(draw, nmax=8, kinds=('call', 'await', 'map', 'amap', 'wait'), immedi
     prog = []
     t = 0.0
     for i in range(draw(st.integers(1, nmax))):
-        t += draw(st.sampled_from(grid)) if i else 0.0
-        prog.append(one_op(t, kinds))
+        gap = draw(st.sampled_from(grid)) if i else 0.0
+        t += gap
+        op = one_op(t, kinds)
+        if i and gap == 0 and draw(st.integers(0, 2)) == 0:
+            # same virtual instant as the previous op: choose how many loop iterations later it happens
+            op['iters'] = draw(st.integers(1, 4))
+        prog.append(op)
     # a deliberately duplicated value
     vals = [o['x'] for o in prog if o['op'] == 'call']
     if vals and draw(st.integers(0, 5)) == 0:
@@ -80,15 +86,15 @@ def program(draw, nmax=8, kinds=('call', 'await', 'map', 'amap', 'wait'), immedi
         fp = []
         base = 1000 * (f + 1)
         for r in range(draw(st.integers(1, 3))):
-            k = draw(st.sampled_from(['call', 'call', 'map', 'await']))
-            gap = draw(st.sampled_from([0, 0, U, T / 2, T, T + U]))
+            k = draw(st.sampled_from(list(foreign_ops)))
+            gap = draw(st.sampled_from([0, 0, U, T / 2, T - U, T, T + U]))
             if k == 'call':
                 fp.append({'gap': gap, 'op': 'call', 'x': base + r})
             elif k == 'map':
                 fp.append({'gap': gap, 'op': 'map', 'kind': 'list', 'xs': [base + r, base + 100 + r], 'fail_at': None, 'delay': 0})
             else:
                 fp.append({'gap': gap, 'op': 'await', 'x': base + r, 'delay': draw(st.sampled_from([0, U])), 'fail': False})
-            if draw(st.integers(0, 2)) == 0:
+            if foreign_waits and draw(st.integers(0, 2)) == 0:
                 fp.append({'gap': draw(st.sampled_from([0, 0, U])), 'op': 'wait', 'cancel': draw(st.booleans())})
         foreign.append(fp)
     sd = None
@@ -133,7 +139,7 @@ def valid(case):
                     return False
                 if len(set(o['xs'])) != len(o['xs']):
                     return False
-            if o.get('delay', 0) < 0:
+            if o.get('delay', 0) < 0 or not (0 <= o.get('iters', 0) <= 8):
                 return False
             return True
         if not all(ok_op(o) for o in case['prog']):
